@@ -254,6 +254,8 @@ var c05Progs = []string{
 	"t2([], x)", "t2([[]][0], x)", "t2(xs, x)", "t2([1], x)", "t2([x], y)", "t3([:], x)", "t3([\"k\": 1], x)",
 	// a type variable that occurs only as a map key (t4), or only in the result (t5)
 	"t4([\"k\": 1])", "t4([1: 1])", "t4(m)", "t4([k: x])", "t5(1)", "t5(i)[k]",
+	// a result type that mentions the variable in one field of several
+	"t6(x)", "t6(x).val", "t6(x).tag", "[t6(x), {val: y, tag: k}]", "t6(t6(i)).val.val",
 	"type", "let + 1", "[x][0].a", "{f: x}.f", "{f: x}.g", "get(mo, k, o)", "get(o, o)", "o + 1", "o.a", "o[0]", "len(o)", "o == o",
 }
 
@@ -313,6 +315,7 @@ func H05_step() {
 		types.Fun("t3", []*types.Type{types.Map(types.Str, types.Num), vc}, vc),
 		types.Fun("t4", []*types.Type{types.Map(vc, types.Num)}, types.Num),
 		types.Fun("t5", []*types.Type{types.Num}, types.Map(vc, types.Num)),
+		types.Fun("t6", []*types.Type{vc}, types.Obj([]types.Field{{Name: "val", Val: vc}, {Name: "tag", Val: types.Str}})),
 	} {
 		e.Register(val.Fun(ft, func(args ...*val.Val) *val.Val { return args[len(args)-1] }))
 		r.funs = append(r.funs, ft)
